@@ -1654,7 +1654,9 @@ class ListBox(Widget, WidgetContainerMixin):
             return None
 
         # no choices available, just shift current one
-        self.shift_focus((maxcol, maxrow), min(maxrow - 1, row_offset))
+        # (a candidate tried and rejected above may have been left as the focus: keep one of ITS rows in view)
+        target, _ignore = self._body.get_focus()
+        self.shift_focus((maxcol, maxrow), max(1 - target.rows((maxcol,), True), min(maxrow - 1, row_offset)))
 
         # final check for pathological case where we may fall short
         middle, top, _bottom = self.calculate_visible((maxcol, maxrow), True)
@@ -1844,7 +1846,9 @@ class ListBox(Widget, WidgetContainerMixin):
             return None
 
         # no choices available, just shift current one
-        self.shift_focus((maxcol, maxrow), max(1 - focus_rows, row_offset))
+        # (a candidate tried and rejected above may have been left as the focus: keep one of ITS rows in view)
+        target, _ignore = self._body.get_focus()
+        self.shift_focus((maxcol, maxrow), max(1 - target.rows((maxcol,), True), min(maxrow - 1, row_offset)))
 
         # final check for pathological case where we may fall short
         middle, _top, bottom = self.calculate_visible((maxcol, maxrow), True)
